@@ -110,7 +110,7 @@ Record state := {
   (* ghosts *)
   s_acked : list (tkt * wrec);            (* acknowledged writes, newest first *)
   s_att : list (tkt * wrec);              (* write attempts started, newest first *)
-  s_commits : list (tkt * Z * list wrec * Z * Z * list Z); (* applied commits: tract, term of the round, packed content, new version, stored version before, ids of the writes to the tract started so far *)
+  s_commits : list (tkt * Z * list wrec * Z * Z * list wrec); (* applied commits: tract, term of the round, packed content, new version, stored version before, the writes to the tract started so far (newest first) *)
   s_durlog : list (Z * Z * Z)             (* durable steps of rounds that were applied: (round op, round term, term at apply) *)
 }.
 
@@ -349,7 +349,7 @@ Definition commit_rs (fx : fixes) (st : state) (op term base : Z) (hosts : list 
                               end in
          let commits := map (fun '(tk, off, len, nv, idx) =>
                                (tk, term, packed tk idx, nv, match dget st tk with Some d => d_ver d | None => 0 end,
-                                map (fun '(_, w) => Cluster.Model.w_id w) (filter (fun '(tk', _) => Cluster.Model.tk_eqb tk tk') (s_att st)))) tracts in
+                                map snd (filter (fun '(tk', _) => Cluster.Model.tk_eqb tk tk') (s_att st)))) tracts in
          let st1 := set_dtr st dtr' in
          (set_ghost st1 (s_acked st1) (s_att st1) (commits ++ s_commits st1) ((op, term, s_term st) :: s_durlog st1), cl_NoError).
 
